@@ -15,7 +15,9 @@ def register(pid, technique, text, note, design_ref=None):
     CHECKS[pid] = dict(technique=technique, text=text, note=note, design_ref=design_ref or f"DESIGN.md section 5 / {pid}")
 
 
-exec(open(os.path.join(ROOT, "harness", "manifest_table.py")).read())
+import glob
+for frag in sorted(glob.glob(os.path.join(ROOT, "harness", "manifest.d", "C*.py"))):
+    exec(open(frag).read())
 
 NOT_YET = {}
 exec(open(os.path.join(ROOT, "harness", "manifest_pending.py")).read())
